@@ -146,6 +146,8 @@ INLINE = [
     "<text:note-body><text:p>note body</text:p></text:note-body></text:note>",
     '<draw:frame draw:name="f1" text:anchor-type="as-char" svg:width="1cm" svg:height="1cm">'
     "<draw:text-box><text:p>boxed</text:p></draw:text-box></draw:frame>",
+    '<text:note text:id="ftn2" text:note-class="footnote"><text:note-citation/>'
+    "<text:note-body><text:p>note without citation</text:p></text:note-body></text:note>",
     '<text:bookmark text:name="bm"/>', '<text:bookmark-start text:name="b2"/>', '<text:bookmark-end text:name="b2"/>',
     '<office:annotation><dc:creator>me</dc:creator><text:p>remark</text:p></office:annotation>',
     '<text:span text:style-name="T2"><text:span text:style-name="T3">deep</text:span> tail</text:span>',
